@@ -19,6 +19,7 @@ let suites : (string * (Sexp.t -> Sexp.t -> Verdict.t)) list = [
   "w_c13", O_c13.run;
   "w_c14", O_c14.run;
   "w_c20", O_c20.run;
+  "c20r", O_c20.run_c20r;
   "codec", S_codec.run;
   "cenc", S_codec.run_enc;
   "ctopic", S_codec.run_topic;
